@@ -688,7 +688,17 @@ pub fn run_cipher_switch(cli: &Cli) -> i32 {
     if cli.tier == Tier::Thorough {
         chunks.extend(49..=260);
     }
-    for (bi, spec) in bases().iter().enumerate() {
+    let mut all_bases = bases();
+    // a client that sends a lot right behind its Encryption Response (a brand message of 300 bytes and
+    // a mod list of 3000): more ciphertext is read ahead of the switch than any small buffer holds,
+    // and routing takes long enough for all of it to be looked at
+    all_bases.push(BaseSpec { name: "login-much-sent-ahead", intent: Intent::Login, secret: true, lat: [2_000, 0, 0], extras: vec![(0, plugin_message(300)), (0, plugin_message(3000)), (0, Pkt::ResourcePackResponse { uuid: 9, result: 0 })], no_target: false, ci_delay_ms: 0 });
+    if cli.tier != Tier::Thorough {
+        chunks.extend([1024, 8192, 16384]);
+    } else {
+        chunks.extend([1024, 2048, 3000, 3500, 8192, 16384]);
+    }
+    for (bi, spec) in all_bases.iter().enumerate() {
         if spec.intent == Intent::Status {
             continue;
         }
